@@ -863,11 +863,17 @@ Section XmlOracles.
 
   (* ---------------------------------------------------------------- loading *)
 
-  (* xml_text::get: the first pcdata/cdata child *)
+  (* GetText: the first pcdata / cdata child and the text children that follow it directly (character data that a comment,
+     a processing instruction or a CDATA section splits into several nodes), joined in document order *)
+  Fixpoint text_run (ch : list xnode) : list N :=
+    match ch with
+    | XText s :: r => s ++ text_run r
+    | _ => []
+    end.
   Fixpoint first_text (ch : list xnode) : option (list N) :=
     match ch with
     | [] => None
-    | XText s :: _ => Some s
+    | XText s :: r => Some (s ++ text_run r)
     | _ :: r => first_text r
     end.
 
